@@ -899,16 +899,19 @@ func Run(rc *core.RunCtx) {
 			}
 		case "sleep":
 			d := clockMenu[t.Choose(len(clockMenu), "sleep-d")]
-			slept := core.SleepChunked(d, 10*time.Second, synctest.Wait, func() bool {
-				for _, it := range w.Parked() {
-					if r, ok := it.Info.(string); ok && core.IsTickerRole(r) {
-						return true
-					}
-					if it.Kind == "lock" && core.IsTickerRole(it.Key) {
-						return true
+			// while a ticker goroutine is away from its select statement (parked by the scheduler,
+			// or blocked below it) the clock stays short of its next tick: a tick that queued up
+			// behind the goroutine would later tie with its stop signal in a select
+			tickers := ws.KeepAlivePingInterval > 0 || ws.PongOnlyInterval > 0 || ws.PingPongInterval > 0
+			if tickers {
+				for _, role := range core.BusyTickerRoles() {
+					if rem := w.UntilNextTick(role, 10*time.Second).Truncate(time.Microsecond); rem < d {
+						d = rem
 					}
 				}
-				return false
+			}
+			slept := core.SleepChunked(d, 10*time.Second, synctest.Wait, func() bool {
+				return tickers && len(core.BusyTickerRoles()) > 0
 			})
 			w.Logf("sleep", "", "%s", slept)
 			w.Count("clock_advances")
